@@ -6,6 +6,7 @@ import (
 	"strings"
 	"testing"
 
+	exprlang "github.com/expr-lang/expr"
 	hexpr "github.com/rulego/streamsql/expr"
 	"github.com/rulego/streamsql/functions"
 	"github.com/rulego/streamsql/rsql"
@@ -54,5 +55,25 @@ func TestDbgParse(t *testing.T) {
 			continue
 		}
 		fmt.Printf("%s\n  simple=%q\n  exprs=%+v\n  select=%v alias=%v cond=%q needWindow=%v\n", x, cfg.SimpleFields, cfg.FieldExpressions, cfg.SelectFields, cfg.FieldAlias, cond, cfg.NeedWindow)
+	}
+}
+
+func TestDbgEval(t *testing.T) {
+	e := os.Getenv("DBGE")
+	if e == "" {
+		t.Skip()
+	}
+	b := functions.GetExprBridge()
+	for _, x := range strings.Split(e, ";;") {
+		data := map[string]any{"n": nil, "a": 7, "b": 2.5, "s": "abc", "f": true}
+		prog, err := b.CompileExpressionWithStreamSQLFunctions(x, data)
+		fmt.Printf("%s\n  compile err=%v\n", x, err)
+		if err == nil {
+			r, err := exprlang.Run(prog, data)
+			fmt.Printf("  run -> %#v err=%v\n", r, err)
+		}
+		env := b.CreateEnhancedExprEnvironment(data)
+		r, err := exprlang.Eval(x, env)
+		fmt.Printf("  eval(env) -> %#v err=%v\n", r, err)
 	}
 }
